@@ -672,7 +672,13 @@ func fieldsOf(t token.Token) (typ string, m map[string]ipld.Node, err error) {
 }
 
 // sameFields compares decoded fields with the payload that was put on the wire.
-func sameFields(dec map[string]ipld.Node, wire map[string]ipld.Node) string {
+func sameFields(dec map[string]ipld.Node, wire map[string]ipld.Node) (why string) {
+	defer func() {
+		// datamodel.DeepEqual panics on integers beyond int64: such a field cannot have been decoded faithfully
+		if r := recover(); r != nil {
+			why = fmt.Sprintf("a field cannot be compared with the signed value (%v)", r)
+		}
+	}()
 	for k, wv := range wire {
 		if wv.Kind() == datamodel.Kind_Null {
 			if _, ok := dec[k]; ok {
